@@ -501,8 +501,11 @@ func runC10(c *Ctx) {
 			check(idx != nil && tx != nil, "the matching input is not an element of tx.TxIn")
 			if idx != nil && tx != nil {
 				check(storedIn(rpt, sr("SpendingTx")) == tx, "SpendReport.SpendingTx is not the transaction whose input matched")
-				conv, _ := storedIn(rpt, sr("SpendingInputIndex")).(*ssa.Convert)
-				check(conv != nil && conv.X == idx, "SpendReport.SpendingInputIndex is not the index of the matching input")
+				// uint32(i) of the i in tx.TxIn[i], or one converted value used for both
+				stored := storedIn(rpt, sr("SpendingInputIndex"))
+				conv, _ := stored.(*ssa.Convert)
+				_, idxIsConv := idx.(*ssa.Convert)
+				check(conv != nil && (conv.X == idx || (idxIsConv && stored == idx)), "SpendReport.SpendingInputIndex is not the index of the matching input")
 				check(storedIn(rpt, sr("SpendingTxHeight")) == ssa.Value(fn.Params[2]), "SpendReport.SpendingTxHeight is not the height of the processed block")
 			}
 			// requests looked up, and the report filed, under that outpoint
@@ -516,7 +519,9 @@ func runC10(c *Ctx) {
 			check(okLk, "the requests answered are not b.requests[that outpoint]")
 			filed := false
 			ir.Instrs(fn, func(in ssa.Instruction) {
-				if mu, ok := in.(*ssa.MapUpdate); ok && mu.Value == ssa.Value(rpt) && keyed(mu.Key) {
+				// (key and report as what the result variables of a written-out
+				// per-input helper hold where the map is written)
+				if mu, ok := in.(*ssa.MapUpdate); ok && (mu.Value == ssa.Value(rpt) || ir.ValueAt(mu.Value, mu.Block()) == ssa.Value(rpt)) && (keyed(mu.Key) || keyed(ir.ValueAt(mu.Key, mu.Block()))) {
 					filed = true
 				}
 			})
